@@ -8,6 +8,7 @@ RULE = ("seeded random programs (frame forests; transitions to self / ancestor /
         "and conditional auxiliaries; stop/abort/start bids; slaves stepped by fiats) with a recorder in the enter, exit, "
         "renter, rexit contexts of every frame; plus Framer.ExEn called directly on all (current outline, target) pairs of every "
         "generated forest; every program with a singly used auxiliary framer is also run with that framer turned into a clone of a moot framer (gen.cloneify); distinct = distinct program text; non-trivial = at least 3 transitions / starts / stops observed")
+RULE = __import__("vf.core", fromlist=["rule_add"]).rule_add(RULE, 'also clones reared into a frame and razed while it is active (enter / recur / precur context), with or without their own `done me` before')
 META = {"engine": "A floscript", "technique": "trace automaton (bracketing) + per-run expected action list from the AST outline difference",
         "level_text": "Per frame a two-state enter/exit automaton over the whole run; at every tick boundary the entered set is compared with "
                       "the full outlines of running framers and active auxiliaries; for every run of a scheduled/slave framer the exact list "
